@@ -16,6 +16,13 @@ import (
 	"time"
 )
 
+var maxViolations = func() int {
+	if os.Getenv("VERIF_ALL") != "" {
+		return 100000
+	}
+	return 10
+}()
+
 var verifRoot = func() string {
 	if d := os.Getenv("VERIF_ROOT"); d != "" {
 		return d
@@ -163,7 +170,7 @@ func (c *Check) Violation(key string, witness interface{}) {
 		return
 	}
 	c.violationKeys[key] = true
-	if len(c.violations) >= 10 {
+	if len(c.violations) >= maxViolations {
 		return
 	}
 	dir := filepath.Join(verifRoot, "replays")
